@@ -110,3 +110,15 @@ void h_lemma_par (void)
 		if (i >= in.n) OBL (buf[i] == old[i], "vbi_unpar.bytes beyond n untouched");
 	CANARY ("par end");
 }
+
+/* the constant table used by specifications that decode many bytes equals
+   the specification function */
+struct in_tab { unsigned b; };
+void h_lemma_spec_tab (void)
+{
+	DECL_INPUTS (in_tab, in);
+	ASSUME (in.b <= 255);
+	OBL (spec_unham8c (in.b) == spec_unham8 (in.b), "spec.unham8 table equals the specification decoder");
+	OBL (spec_unham8 (in.b) == vbi_unham8 (in.b), "ham8.library decoder equals the specification decoder (nearest code word, -1 at distance 2)");
+	CANARY ("spec tab end");
+}
